@@ -5,6 +5,7 @@ import Scion.Proofs.NetEdge
 import Scion.Proofs.NetSpecEdge
 import Scion.Proofs.NetPeerEdge
 import Scion.Proofs.NetSibling
+import Scion.Proofs.NetMulti7
 /-!
 # C02 — Paths built from beacons are accepted hop by hop and reach the destination
 
@@ -186,9 +187,72 @@ theorem sibling_handover_partial (mac : MacFn) (net : Net) (now src dst : Nat) (
     rw [sibling_handover_segid] at this
     exact this
 
-/-- What is still open: several border routers per AS (sibling hand-over); `C02_full` is the
-    statement without `SingleRouter`. -/
-def remaining_stages : Prop := C02_full
+/-- **Several border routers per AS, any kind of hop — the egress router** (transit hop, first hop
+    after a segment change, peering hop out of the up segment, peering hop into the down segment:
+    `p` and the position of `cm` are arbitrary).  The packet `cm` comes over the sibling link from
+    router `r1`; router `r2` accepts it because `r1` owns the ingress interface of the hop
+    (`validateTransitUnderlaySrc`; after a segment change that is the interface of the *previous*
+    segment's last hop, `ingressInterface`), validates expiry and MAC again, does no segment change
+    of its own, and sends the packet out after egress processing. -/
+theorem sibling_egress_any_hop (mac : MacFn) (net : Net) (now a r1 r2 : Nat) (sl : Bool) (cm : Cursor)
+    (p : Bool) (fi f : Iface) (c' : Cursor)
+    (hsing : (!cm.info.peer && cm.hasSingleton) = false)
+    (hp : determinePeer cm = some p)
+    (hexp : expired now cm.info.ts cm.cur.exp = false)
+    (hnf : cm.isFirstHop = false)
+    (hfi : (net a).iface (ingressInterface cm p) = some fi) (hr1 : fi.owner = r1) (h12 : r1 ≠ r2)
+    (hmac : macOk mac (net a).key cm.info cm.cur = true)
+    (hx : (cm.isXover && !p) = false)
+    (he0 : egressOf cm ≠ 0) (hf : (net a).iface (egressOf cm) = some f) (hr2 : f.owner = r2)
+    (hal : (if cm.info.consDir then cm.cur.egAlert else cm.cur.inAlert) = false)
+    (hup : f.up = true) (hinc : (egUpd cm p).incPath = some c') :
+    routerStep mac (cfgR net a r2) now (.sibling r1) sl false cm = .forward (egressOf cm) c' :=
+  sibling_out_step mac net now a r1 r2 sl cm p fi f c' hsing hp hexp hnf hfi hr1 h12 hmac hx he0 hf hr2
+    hal hup hinc
+
+/-- **Crossing an AS with several border routers = crossing it with one.**  `collapse net` is
+    `net` with every interface moved to router 0.  For ANY packet `c` (every segment with the same
+    Peer flag, not on its very first hop, on the first hop of a later segment only across a
+    peering link — what holds for every packet a router sends to a neighbour, `ArrOK`) that the
+    single router of the collapsed AS forwards: the router owning the ingress interface either
+    does exactly the same, or (cross-over included) hands the packet to the sibling owning the
+    egress interface, which sends out exactly the same packet over the same interface; and the
+    packet sent out satisfies the same invariants, with fewer hop fields left.  This one lemma
+    covers transit hops, segment changes and both peering hops, ingress and egress router. -/
+theorem as_crossing_with_siblings (mac : MacFn) (net : Net) (now a i : Nat) (sl dl : Bool) (c : Cursor)
+    (e : Nat) (c' : Cursor) (fi : Iface) (hfi : (net a).iface i = some fi) (hi0 : i ≠ 0)
+    (hU : Uniform c) (hA : ArrOK c)
+    (h : routerStep mac (cfgOf (collapse net) a) now (.ext i) sl dl c = .forward e c') :
+    dl = false ∧ ∃ f, (net a).iface e = some f ∧ e ≠ 0 ∧
+      ((f.owner = fi.owner ∧
+          routerStep mac (cfgR net a fi.owner) now (.ext i) sl false c = .forward e c') ∨
+       (f.owner ≠ fi.owner ∧ ∃ cm,
+          routerStep mac (cfgR net a fi.owner) now (.ext i) sl false c = .forward e cm ∧
+          routerStep mac (cfgR net a f.owner) now (.sibling fi.owner) sl false cm = .forward e c')) ∧
+      Uniform c' ∧ ArrOK c' ∧ remaining c' < remaining c :=
+  step_sim_ext mac net now a i sl dl c e c' fi hfi hi0 hU hA h
+
+/-- whatever the collapsed network delivers, the network as it is delivers — same trace, same
+    final packet (induction over the run with `as_crossing_with_siblings`; the fuel `send` grants,
+    two router invocations per hop field, suffices) -/
+theorem send_with_siblings (mac : MacFn) (net : Net) (now src dst : Nat) (hWF : WFNet net) (c : Cursor)
+    (hU : Uniform c) (hfirst : c.isFirstHop = true) (d : Nat) (tr : List (Nat × Nat)) (cf : Cursor)
+    (h : send mac (collapse net) now src dst c = .delivered d tr cf) :
+    send mac net now src dst c = .delivered d tr cf :=
+  send_sim mac net now src dst hWF c hU hfirst d tr cf h
+
+/-- **C02 at full strength is a theorem**: any number of border routers per AS, every edge list
+    the combinator may produce (all segment combinations, shortcuts, peering).  The hypotheses of
+    `C02_full` do not depend on which router owns which interface, so they hold for
+    `collapse net`; `C02_single_router_partial` delivers the packet there; `send_with_siblings`
+    transfers the delivery, trace included, to `net`. -/
+theorem C02_holds : C02_full := by
+  intro mac net now edges src dst c hWF hUp hJ hp hexp
+  obtain ⟨cf, h⟩ := C02_single_router_partial mac (collapse net) now edges src dst c
+    (wf_collapse net hWF) (allUp_collapse net hUp) (singleRouter_collapse net)
+    (joinable_collapse mac net edges src dst hJ) hp hexp
+  obtain ⟨hU, hfirst⟩ := pathOf_uniform mac net edges src dst c hJ hp
+  exact ⟨cf, send_sim mac net now src dst hWF c hU hfirst dst _ cf h⟩
 
 /-! Non-vacuity: a two-AS network (core 1 with child 2), the beacon 1→2 with the identity-like MAC
 `fun _ inp => inp.length`; the down path is delivered by `send`. -/
